@@ -429,9 +429,14 @@ def _get_sort_aux(node):  # noqa: C901
         return Node('_', 'BitVec', str(bvwidth))
     # non-indexed operators
     if node.has_ident() and len(node) > 1:
+        ident = node.get_ident()
+        # a function the input declares or defines itself: its name may be
+        # one the tables below know as an operator of a theory the input does
+        # not use (member, card, ...)
+        if ident.data in __sort_lookup:
+            return __sort_lookup[ident.data]
         if is_operator_app(node, 'ite') and len(node) > 2:
             return get_sort(node[2])
-        ident = node.get_ident()
         # operators that return Bool
         if ident in [
                 # core theory
@@ -725,6 +730,12 @@ def get_bv_width(node):  # noqa: C901
         return get_indices(node[0], node[0][1])[0]
     if node.has_ident():
         ident = node.get_ident()
+        if ident.data in __sort_lookup:
+            # declared or defined by the input itself (see _get_sort_aux)
+            bvsort = __sort_lookup[ident.data]
+            if bvsort is not None and is_bv_sort(bvsort):
+                return int(bvsort[2].data)
+            return -1
         if ident in [
                 'bvadd',
                 'bvand',
